@@ -468,6 +468,7 @@ func runC19(r *Run) {
 		}
 		r.atLeast("non-empty returns of normalizeOrigin", n, 1)
 	})
+
 }
 
 // corsPermitEdges lists the CFG edges of f on which `origin` is known to be permitted: equality
